@@ -143,6 +143,18 @@ CHECKS["C01"] = ("exploration",
     "x86-64 TSO only; volatile modelled as described; schedules sampled (thousands of distinct ones per run), not "
     "enumerated", "DESIGN.md C01")
 
+CHECKS["C02"] = ("exploration",
+    "unique-id message ledger recorded at the client API boundary and in the server callbacks of real processes, "
+    "checked offline (exactly-once, order, bytes, refused-send-has-no-effect, pollability) on both transports under "
+    "back-pressure",
+    "Each process logs call and return of every IPC call; the merged history is judged by a deterministic checker: "
+    "the sequence of requests whose send returned success must equal the sequence handed to msg_process (length and "
+    "checksum included), refused or oversize sends must never show up, responses and events must arrive in order and "
+    "intact, all accepted events must have been received at quiescence, and the client's descriptor must poll "
+    "readable while events are known to be queued. Workloads reach ring-full, flow control (OFF/OFF_2 with "
+    "fc_enable_max 1/2) and a full notification socket.",
+    "relative speeds are OS-scheduled plus seeded delays; asan server; abstract sockets only", "DESIGN.md C02")
+
 REASON_PENDING = "check not registered yet in this revision (implementation in progress, see DESIGN.md section 7)"
 
 
